@@ -278,7 +278,7 @@ def hist_stage(rep, stage, run_cmd, engine, trace_module, tcfg, hist_files, mode
     log("stage %s: %d histories, harness %.1fs, trace validation %.1fs" % (stage, nh, t1 - t0, time.time() - t1))
 
     def describe(res, rec, trace, why):
-        part = int(re.search(r"-(\d+)$", res["dir"]).group(1))
+        part = res["part"]
         with open(hist_files[part]) as f:
             lines = f.read().split("\n")
         hist = json.loads(lines[rec[tkey]])
@@ -345,7 +345,7 @@ def storage_random_stage(rep, stage, tcfg, n, length, nids):
     results = vlib.validate_traces(outs, "SlabStorageTrace.tla", tcfg, stage + "-tv")
 
     def describe(res, rec, trace, why):
-        part = int(re.search(r"-(\d+)$", res["dir"]).group(1))
+        part = res["part"]
         sig = "storage:%s:%s" % (rec["ev"], why)
         what = "real PersistentSlabStorage diverges from SlabStorage at event %s (%s) in random history (seed %d, trace %d)" % (
             rec["ev"], why, rep.seed * 1000 + part, rec["t"])
@@ -964,7 +964,7 @@ def multirun_stage(rep, stage, kind, hist_files, variants, tcfg, what, envs=None
     log("stage %s: %d histories x %d variants x %d envs, harness %.1fs, validation %.1fs" % (stage, nh, len(variants), len(envs), t1 - t0, time.time() - t1))
 
     def describe(res, rec, trace, why):
-        part = int(re.search(r"-(\d+)$", res["dir"]).group(1))
+        part = res["part"]
         with open(hist_files[part]) as f:
             lines = f.read().split("\n")
         hist = json.loads(lines[rec["t"]])
@@ -1608,7 +1608,7 @@ def check_C16(rep):
     results = vlib.validate_traces(outs, "Pools.tla", "Pools_C16.cfg", "c16-pools-tv")
 
     def describe(res, rec, trace, why):
-        part = int(re.search(r"-(\d+)$", res["dir"]).group(1))
+        part = res["part"]
         s = "pools:%s:%s" % (rec.get("kind") or rec["ev"], why)
         return s, "pool discipline / client independence violated at event %s %s (goroutine %s, object %s): %s" % (rec["ev"], rec.get("kind"), rec.get("g"), rec.get("o"), why), \
             {"engine": "pools", "seed": rep.seed * 100 + part, "steps": 120 if quick else 400, "trace": trace[-30:]}
